@@ -124,8 +124,8 @@ Definition is_nil {A} (l : list A) : bool := match l with [] => true | _ => fals
 
 (* ---- primitive state changes and their hooks ----------------------------------- *)
 Inductive action :=
-| AUidInc                                   (* bus_connection_complete: adjust_connections_for_uid (+1); nothing takes it back
-                                               when cache_peer_loginfo_string fails afterwards (finding F14.4) *)
+| AUidInc                                   (* bus_connection_complete: adjust_connections_for_uid (+1), taken back by the function
+                                               itself if cache_peer_loginfo_string fails (c7c9e6b; before: finding F14.4) *)
 | AComplete (c : N)                         (* bus_connection_complete, tail: the connection becomes active; no undo *)
 | ACreateOwn (k : key) (c : N) (flags : N)  (* bus_registry_ensure: new service, first owner, hash insert; cancel_ownership hook *)
 | AAddOwner (k : key) (c : N) (flags : N)   (* bus_service_add_owner, new BusOwner appended / inserted after the first link; cancel_ownership hook *)
